@@ -25,7 +25,9 @@ def cleanUpState : M Unit := do
     match x.parentUid with
     | some p =>
       match ← getInstX? p with
-      | some px => if px.childFlowUids.contains u then modInstX p fun y => { y with childFlowUids := listRemoveFirst u y.childFlowUids }
+      -- REPAIRED behaviour (fixes/C09-cleanup-duplicate-child.diff; on the unpatched tree this is the region of the open finding
+      -- `dangling-child`): every occurrence is removed (a flow activated n times is listed n times)
+      | some px => if px.childFlowUids.contains u then modInstX p fun y => { y with childFlowUids := y.childFlowUids.filter (· ≠ u) }
       | none => pure ()
     | none => pure ()
     modifyRest fun r => { r with idStates := OMap.modify x.flowId (listRemoveFirst u) r.idStates, fx := OMap.erase u r.fx }
